@@ -26,7 +26,15 @@ LATTICE_CLASSES = {
 }
 
 
-def int_lattice(rng, kind):
+def int_lattice(rng, kind, maxK=3):
+    """integer lattice of the given class whose minimum-image window is provably small"""
+    while True:
+        m = _int_lattice(rng, kind)
+        if window_ok(m, maxK):
+            return m
+
+
+def _int_lattice(rng, kind):
     """Return an integer 3x3 matrix (rows are lattice vectors) of the given class."""
     if kind == 'cubic':
         a = rng.choice([4, 5, 6, 8])
@@ -74,15 +82,31 @@ def rotation(rng):
 
 
 def min_image_d2(G, f, K=2):
-    """exact minimum over images n in [-K,K]^3 of |f + n|^2_G after wrapping f to [-1/2,1/2]"""
+    """exact minimum over images n in [-K,K]^3 of |f + n|^2_G after wrapping f to [-1/2,1/2] (integer arithmetic)"""
     f = [Fr(x) for x in f]
     f = [x - math.floor(x + Fr(1, 2)) for x in f]
+    den = 1
+    for x in f:
+        den = den * x.denominator // math.gcd(den, x.denominator)
+    gden = 1
+    for row in G:
+        for x in row:
+            gden = gden * Fr(x).denominator // math.gcd(gden, Fr(x).denominator)
+    a = [int(x * den) for x in f]
+    g = [[int(Fr(x) * gden) for x in row] for row in G]
     best = None
-    for n in itertools.product(range(-K, K + 1), repeat=3):
-        d = qf(G, [f[i] + n[i] for i in range(3)])
-        if best is None or d < best:
-            best = d
-    return best
+    rng = range(-K, K + 1)
+    for n0 in rng:
+        x0 = a[0] + den * n0
+        for n1 in rng:
+            x1 = a[1] + den * n1
+            for n2 in rng:
+                x2 = a[2] + den * n2
+                d = (g[0][0] * x0 * x0 + g[1][1] * x1 * x1 + g[2][2] * x2 * x2
+                     + 2 * (g[0][1] * x0 * x1 + g[0][2] * x0 * x2 + g[1][2] * x1 * x2))
+                if best is None or d < best:
+                    best = d
+    return Fr(best, den * den * gden)
 
 
 def window_ok(m, K):
